@@ -285,6 +285,12 @@ class Processor:
                 , prefix="Processor::_apply_change:  ")
             self._apply_change(yaml_path, node_coord.node, value, **kwargs)
 
+        if Processor._is_empty_slice(node_coord):
+            self.logger.debug(
+                "Nothing to change in an Array slice which selects nothing."
+                , prefix="Processor::_apply_change:  ")
+            return
+
         if (isinstance(node_coord.node, list)
             and len(node_coord.node) > 0
             and isinstance(node_coord.node[0], NodeCoords)
@@ -744,6 +750,37 @@ class Processor:
         self._delete_nodes(gathered_nodes)
 
     @staticmethod
+    def _is_empty_slice(node_coord: NodeCoords) -> bool:
+        """
+        Indicate whether a NodeCoords is an Array slice which selects nothing.
+
+        An Array slice is gathered as a virtual list of the selected elements
+        which is held by no node of the document.  The coordinates given with
+        it are the sliced Array and the start of the slice.  When the slice
+        selects no elements, these coordinates refer to no element at all or
+        to an element which the slice does not select; there is nothing to
+        change or delete.
+
+        Parameters:
+        1. node_coord (NodeCoords) The gathered node to evaluate.
+
+        Returns:  (bool) True = node_coord is an empty virtual list
+        """
+        node = node_coord.node
+        parent = node_coord.parent
+        parentref = node_coord.parentref
+        segment = node_coord.path_segment
+        if not (isinstance(node, list) and len(node) < 1
+                and isinstance(parent, list)
+                and isinstance(parentref, int)
+                and segment is not None
+                and segment[0] is PathSegmentTypes.INDEX
+                and ':' in str(segment[1])):
+            return False
+        return not (-len(parent) <= parentref < len(parent)
+                    and parent[parentref] is node)
+
+    @staticmethod
     def _leaf_node_coords(
         gathered_nodes: List[NodeCoords]
     ) -> Generator[NodeCoords, None, None]:
@@ -767,7 +804,7 @@ class Processor:
                 yield from Processor._leaf_node_coords(node)
             elif isinstance(node, NodeCoords):
                 yield from Processor._leaf_node_coords([node])
-            else:
+            elif not Processor._is_empty_slice(node_coord):
                 yield node_coord
 
     def _delete_nodes(self, delete_nodes: List[NodeCoords]) -> None:
